@@ -44,3 +44,59 @@ def summary_no_pairs(line):
     if line.startswith("OK "):
         return line.split(" pairs=")[0]
     return verdict(line)
+
+
+def make_cases(rng, n, scenarios=None, tweak=None):
+    g, keys, consts_hex = setup_env(rng)
+    cases = []
+    for _ in range(n):
+        c = g.scenario(rng.choice(scenarios) if scenarios else None)
+        if tweak:
+            tweak(c, rng)
+        cases.append(c)
+    valid = key_oracle(cases, keys)
+    for c in cases:
+        c["line"] = condgen.case_line(c, consts_hex, valid)
+    return g, cases, consts_hex, valid
+
+
+def run_both(lines, have_model=True):
+    impl = C.run_lines(C.VH(UNIT), lines)
+    model = C.run_lines(C.VRUN(UNIT), lines) if have_model else [None] * len(lines)
+    return impl, model
+
+
+def parse_ok(line):
+    """OK line -> dict of fields; spends as list of field lists"""
+    if not line.startswith("OK "):
+        return None
+    d = {}
+    for tok in line.split(" ")[1:]:
+        k, _, v = tok.partition("=")
+        d[k] = v
+    sp = []
+    if d.get("spends", "-") != "-":
+        for s in d["spends"].split("|"):
+            sp.append(s.split(";"))
+    d["spend_list"] = sp
+    return d
+
+
+def replace_arg(line, idx, val):
+    t = line.split(" ")
+    t[idx] = str(val)
+    return " ".join(t)
+
+
+def stream_stats(rep, name, cases, impl):
+    from collections import Counter
+    st = rep.streams.setdefault(name, {})
+    st["accepted"] = sum(1 for i in impl if i.startswith("OK"))
+    st["rejected"] = sum(1 for i in impl if i.startswith("ERR"))
+    st["error_kinds"] = dict(Counter(i for i in impl if not i.startswith("OK")).most_common(60))
+    st["scenarios"] = dict(Counter(c["scenario"] for c in cases))
+    st["line_bytes_max"] = max((len(c["line"]) for c in cases), default=0)
+    for c, i in zip(cases, impl):
+        v = i.split(" ")[0] if i.startswith("OK") else i
+        for t in c["tags"] or [("none", "")]:
+            rep.nontrivial.add((name, t[0], t[1], c["flags"], c["visitor"], v))
